@@ -145,38 +145,41 @@ def gen_cases(prop, n, seed, extra=()):
 
 
 def run_lines(binary, lines, args=(), jobs=None, timeout=7200):
-    """feed lines to `binary` in parallel chunks; returns one output line per input line"""
+    """feed lines to `binary` in parallel chunks; returns one output line per input line.
+    A process that dies (fatal error: stack overflow, out of memory, ...) answers `crash` for the line it died on;
+    the lines after it are fed to a fresh process, so exactly the crashing inputs are identified."""
     jobs = jobs or min(16, max(1, len(lines) // 8)) or 1
     chunks = [lines[i::jobs] for i in range(jobs)]
-    procs = []
-    for ch in chunks:
-        p = subprocess.Popen([binary] + list(args), stdin=subprocess.PIPE, stdout=subprocess.PIPE,
-                             stderr=subprocess.PIPE, text=True)
-        procs.append((p, ch))
     import threading
     outs = [None] * jobs
 
-    def feed(i, p, ch):
-        try:
-            so, se = p.communicate("\n".join(ch) + "\n", timeout=timeout)
-        except subprocess.TimeoutExpired:
-            p.kill()
-            so, se = p.communicate()
-        outs[i] = ([l for l in so.split("\n") if l.strip()], se, p.returncode)
+    def feed(i, ch):
+        results = []
+        rest = list(ch)
+        while rest:
+            p = subprocess.Popen([binary] + list(args), stdin=subprocess.PIPE, stdout=subprocess.PIPE,
+                                 stderr=subprocess.PIPE, text=True)
+            try:
+                so, se = p.communicate("\n".join(rest) + "\n", timeout=timeout)
+            except subprocess.TimeoutExpired:
+                p.kill()
+                so, se = p.communicate()
+            ol = [l for l in so.split("\n") if l.strip()]
+            results.extend(ol[:len(rest)])
+            if len(ol) >= len(rest):
+                break
+            # the process died while working on rest[len(ol)]
+            results.append(json.dumps({"outcome": "crash", "result": "PANIC", "err": "process died: " + (se or "")[:300].replace("\n", " | ")}))
+            rest = rest[len(ol) + 1:]
+        outs[i] = results
 
-    ths = [threading.Thread(target=feed, args=(i, p, ch)) for i, (p, ch) in enumerate(procs)]
+    ths = [threading.Thread(target=feed, args=(i, ch)) for i, ch in enumerate(chunks)]
     for t in ths: t.start()
     for t in ths: t.join()
     res = [None] * len(lines)
-    for i, (ol, se, rc) in enumerate(outs):
-        ch = chunks[i]
-        for k in range(len(ch)):
-            idx = i + k * jobs
-            if k < len(ol):
-                res[idx] = ol[k]
-            else:
-                # the process died on this line (fatal error); re-run the remaining lines alone
-                res[idx] = json.dumps({"outcome": "crash", "err": (se or "")[-500:]})
+    for i, ol in enumerate(outs):
+        for k in range(len(chunks[i])):
+            res[i + k * jobs] = ol[k]
     return res
 
 
